@@ -702,7 +702,15 @@ func containsVar(t *Term, n string, memo map[int]bool) bool {
 // Query renders hyps |- goal as an SMT-LIB2 script asserting hyps and (not goal).
 // Shared sub-terms are introduced by define-fun in dependency order. Terms
 // under a quantifier that mention the bound variable are printed inline.
+var abstractDefs bool
+
 func Query(hyps []*Term, goal *Term, wantModel bool) string {
+	return QueryOpt(hyps, goal, wantModel, false)
+}
+
+// QueryOpt: with abstract=true, spec helpers that have a definition are only declared (uninterpreted):
+// proving with less information is sound, and usually much faster.
+func QueryOpt(hyps []*Term, goal *Term, wantModel bool, abstract bool) string {
 	roots := append([]*Term{}, hyps...)
 	if goal != nil {
 		roots = append(roots, Not(goal))
@@ -752,7 +760,7 @@ func Query(hyps []*Term, goal *Term, wantModel bool) string {
 		}
 		fseen[n] = true
 		sig := funcSigs[n]
-		if sig != nil && sig.Body != nil {
+		if sig != nil && sig.Body != nil && !abstract {
 			var v2 func(t *Term, m map[int]bool)
 			v2 = func(t *Term, m map[int]bool) {
 				if m[t.id] {
@@ -820,7 +828,7 @@ func Query(hyps []*Term, goal *Term, wantModel bool) string {
 		if sig == nil {
 			continue
 		}
-		if sig.Body != nil {
+		if sig.Body != nil && !abstract {
 			fmt.Fprintf(&sb, "(define-fun %s (", smtName(n))
 			for i, p := range sig.Params {
 				if i > 0 {
